@@ -33,6 +33,7 @@ import (
 	"github.com/kubewharf/kubebrain/pkg/backend/tso"
 	"github.com/kubewharf/kubebrain/pkg/metrics"
 	"github.com/kubewharf/kubebrain/pkg/storage"
+	"github.com/kubewharf/kubebrain/pkg/verifhook"
 )
 
 const (
@@ -217,6 +218,7 @@ func (b *backend) collectStorageWriteEvents() {
 			if !ok || watchEvent == nil {
 				if cnt == 0 {
 					// no event in inside loop, continue inside loop
+					verifhook.Poll("seq.idle")
 					continue
 				}
 				// break inside loop for sending existing  events, then read events in a new loop
@@ -231,10 +233,12 @@ func (b *backend) collectStorageWriteEvents() {
 					// must enqueue before update revision, otherwise it may be compact
 					b.asyncFifoRetry.Append(watchEvent)
 				}
+				verifhook.Yield("seq.commit")
 				b.SetCurrentRevision(watchEvent.Revision)
 				continue
 			}
 
+			verifhook.Yield("seq.commit")
 			b.SetCurrentRevision(watchEvent.Revision)
 
 			e := &proto.Event{
@@ -258,12 +262,14 @@ func (b *backend) collectStorageWriteEvents() {
 			events[cnt] = e
 			cnt++
 			// set watch cache
+			verifhook.Yield("seq.cache")
 			b.watchCache.Add(e)
 		}
 
 		if cnt > 0 {
 			evs := make([]*proto.Event, cnt)
 			copy(evs, events[:cnt])
+			verifhook.Yield("seq.bcast")
 			b.watchChan <- evs
 		}
 	}
